@@ -36,10 +36,19 @@ type DIDPool struct {
 
 // NewDIDPool draws a DID.
 func NewDIDPool(t *rapid.T, code uint64, i int, pool string) (*DIDPool, QOp) {
+	return newDIDPool(t, code, i, pool, nil)
+}
+
+// newDIDPool: template != nil makes the DID's initial patches that shared template (many DIDs with one document).
+func newDIDPool(t *rapid.T, code uint64, i int, pool string, template []interface{}) (*DIDPool, QOp) {
 	kt := rapid.SampledFrom(keys.AllTypes).Draw(t, "keyType")
 	p := &DIDPool{Index: i, Code: code, rec: keys.Get(kt, pool, 10*i), upd: keys.Get(kt, pool, 10*i+1)}
 	p.origin = rapid.SampledFrom([]interface{}{nil, "origin-a", map[string]interface{}{"o": "b"}, []interface{}{"x", "y"}}).Draw(t, "anchorOrigin")
-	c := &asm.Create{Code: code, RecoveryCommit: asm.Commit(p.rec, code), Delta: asm.Delta(asm.Commit(p.upd, code), ValidPatches(t, 2, PatchOpts{})), AnchorOrigin: p.origin}
+	patches := template
+	if patches == nil {
+		patches = ValidPatches(t, 2, PatchOpts{})
+	}
+	c := &asm.Create{Code: code, RecoveryCommit: asm.Commit(p.rec, code), Delta: asm.Delta(asm.Commit(p.upd, code), patches), AnchorOrigin: p.origin}
 	p.Suffix = c.Suffix()
 	return p, QOp{Type: "create", Suffix: p.Suffix, Request: c.Bytes(), ReqOrigin: p.origin, DID: i}
 }
@@ -75,19 +84,32 @@ func (p *DIDPool) Op(t *rapid.T, typ string, expired bool) QOp {
 	return q
 }
 
-// Batch draws a batch of 1..max queued operations over 1..6 DIDs: any mix and order of the four types,
+// Batch draws a batch of 1..max queued operations over 1..6 DIDs - or, one time in four, over up to max DIDs
+// ("wide": many distinct suffixes, so that the files themselves carry many operations), half of the wide ones
+// with one shared document template (highly compressible files): any mix and order of the four types,
 // repeated suffixes, single-type batches, expired operations.
 func Batch(t *rapid.T, code uint64, max int, allowExpired bool, pool string) []QOp {
 	nd := rapid.IntRange(1, 6).Draw(t, "dids")
+	var template []interface{}
+	wide := max > 6 && rapid.IntRange(0, 3).Draw(t, "wide") == 0
+	if wide {
+		nd = rapid.IntRange(7, max).Draw(t, "wideDids")
+		if rapid.Bool().Draw(t, "template") {
+			template = ValidPatches(t, 3, PatchOpts{})
+		}
+	}
 	var pools []*DIDPool
 	var creates []QOp
 	for i := 0; i < nd; i++ {
-		p, c := NewDIDPool(t, code, i, pool)
+		p, c := newDIDPool(t, code, i, pool, template)
 		pools = append(pools, p)
 		creates = append(creates, c)
 	}
 	shape := rapid.SampledFrom([]string{"mixed", "mixed", "mixed", "deactivate-only", "update-only", "create-only", "single", "repeated-suffix"}).Draw(t, "batchShape")
 	n := rapid.IntRange(1, max).Draw(t, "batchSize")
+	if wide {
+		n = rapid.IntRange(nd, max).Draw(t, "wideBatchSize")
+	}
 	if shape == "single" {
 		n = 1
 	}
